@@ -1,6 +1,7 @@
 package c10
 
 import (
+	_ "github.com/ozontech/file.d/plugin/action/split"
 	"errors"
 	"context"
 	"fmt"
@@ -43,6 +44,7 @@ type scen struct {
 	workers int
 	bound   int
 	cap     int // event pool capacity (default 8)
+	splitFirst bool // a split action is in the chain and the first record carries an array that is split into two children
 	errHead int // the first errHead records of every partition arrive in a fetch that also carries an error (a later batch of
 	// that fetch was corrupt): the client's cursor is past them, so they must be processed like any other record
 }
@@ -95,12 +97,12 @@ func (in *input) Commit(e *pipeline.Event) {
 	if id >= 0 && id < len(o.recs) {
 		o.recs[id].commits++
 	}
-	checkMarks(fmt.Sprintf("after commit of record %d", id))
+	checkMarks(fmt.Sprintf("after commit of record %d", id), id)
 }
 
 func finished(r *recState) bool { return r.acked || (r.discard && r.consumed) }
 
-func checkMarks(when string) {
+func checkMarks(when string, committing int) {
 	marked := client.MarkedOffsets()
 	var desc []string
 	for ti, topic := range o.topics {
@@ -143,7 +145,14 @@ func checkMarks(when string) {
 			}
 			for _, r := range o.recs {
 				if r.topic == ti && r.partition == p && r.offset < m.Offset && !finished(r) {
-					o.fail("mark-past-unfinished", "%s: %s/%d marked %d but record %d (offset %d) is neither acknowledged nor dropped", when, topic, p, m.Offset, r.id, r.offset)
+					// which record is passed: an earlier one that another processor still works on (the recorded open finding of
+					// the spread mode), or the very record whose commit moved the mark (it was never sent at all)
+					which := "earlier"
+					if r.id == committing {
+						which = "own"
+					}
+					o.fs = append(o.fs, vexplore.Finding{Clause: "mark-past-unfinished", Features: map[string]string{"partitions_over_processors": "spread", "which": which},
+						Detail: fmt.Sprintf("%s: %s/%d marked %d but record %d (offset %d) is neither acknowledged nor dropped", when, topic, p, m.Offset, r.id, r.offset)})
 				}
 			}
 		}
@@ -162,11 +171,12 @@ func (p *output) Start(_ pipeline.AnyConfig, params *pipeline.OutputPluginParams
 		BatchSizeCount: p.count, FlushTimeout: 200 * time.Millisecond, MetricCtl: params.MetricCtl,
 		OutFn: func(_ *pipeline.WorkerData, b *pipeline.Batch) {
 			vsched.Point("send")
-			for _, e := range b.VerifEvents() {
+			// as every real output does: Batch.ForEach (it leaves out the parents of split events)
+			b.ForEach(func(e *pipeline.Event) {
 				if id := idOf(e); id >= 0 && id < len(o.recs) {
 					o.recs[id].acked = true
 				}
-			}
+			})
 		}})
 	p.b.Start(context.Background())
 }
@@ -263,6 +273,17 @@ func body(sc scen) {
 	}
 	p.AddAction(&pipeline.ActionPluginStaticInfo{PluginStaticInfo: &pipeline.PluginStaticInfo{Type: "discard", Factory: info.Factory, Config: cfg},
 		MatchMode: pipeline.MatchModeAnd, MatchConditions: pipeline.MatchConditions{{Field: []string{"d"}, Values: []string{"1"}}}})
+	if sc.splitFirst {
+		sinfo, err := fd.DefaultPluginRegistry.GetActionByType("split")
+		if err != nil {
+			panic(err)
+		}
+		scfg, err := pipeline.GetConfig(sinfo, []byte(`{"field":"arr"}`), nil)
+		if err != nil {
+			panic(err)
+		}
+		p.AddAction(&pipeline.ActionPluginStaticInfo{PluginStaticInfo: &pipeline.PluginStaticInfo{Type: "split", Factory: sinfo.Factory, Config: scfg}, MatchMode: pipeline.MatchModeAnd})
+	}
 	p.Start()
 
 	// one partition consumer per (topic, partition), fed in record order
@@ -287,6 +308,9 @@ func body(sc scen) {
 			d := ""
 			if r.discard {
 				d = `,"d":"1"`
+			}
+			if o.sc.splitFirst && r.id == 0 {
+				d += fmt.Sprintf(`,"arr":[{"id":%d,"c":1},{"id":%d,"c":2}]`, r.id, r.id)
 			}
 			records = append(records, &kgo.Record{Topic: o.topics[k.t], Partition: k.p, Offset: r.offset, LeaderEpoch: r.epoch,
 				Value: []byte(fmt.Sprintf(`{"id":%d%s}`, r.id, d))})
@@ -313,7 +337,7 @@ func body(sc scen) {
 		}
 		return n >= need
 	})
-	checkMarks("at the end")
+	checkMarks("at the end", -1)
 	// at the end every partition's mark is one past its last non-discarded... at least: each committed record's mark reached
 	for _, k := range keys {
 		var last *recState
@@ -368,6 +392,8 @@ func scenarios(thorough bool) []scen {
 	s = append(s, scen{name: "1p-5rec-cap2-w1", topics: 1, count: 1, workers: 1, bound: 1, cap: 2, recs: []rec{{0, 0, 5, 1, false}, {0, 0, 6, 1, false}, {0, 0, 7, 1, false}, {0, 0, 8, 1, false}, {0, 0, 9, 1, false}}})
 	// a configured topics list that names a topic twice before another one
 	s = append(s, scen{name: "1p-4rec-fetch-error-head", topics: 1, count: 1, workers: 1, bound: 1, errHead: 2, recs: []rec{{0, 0, 10, 1, false}, {0, 0, 11, 1, false}, {0, 0, 12, 1, false}, {0, 0, 13, 1, false}}})
+	// a split record, then plain records that reuse its pooled event object (capacity 2)
+	s = append(s, scen{name: "1p-4rec-split-first-cap2", topics: 1, count: 1, workers: 1, bound: 1, cap: 2, splitFirst: true, recs: []rec{{0, 0, 5, 1, false}, {0, 0, 6, 1, false}, {0, 0, 7, 1, false}, {0, 0, 8, 1, false}}})
 	s = append(s, scen{name: "dup-topic-2t", dup: true, topics: 2, count: 1, workers: 1, bound: 1, recs: []rec{{1, 3, 5, 1, false}, {0, 3, 6, 1, false}, {1, 3, 6, 1, false}}})
 	if thorough {
 		s = append(s, scen{name: "1p-4rec-b2-w2", topics: 1, count: 2, workers: 2, bound: 2, recs: []rec{{0, 3, 10, 2, false}, {0, 3, 11, 2, false}, {0, 3, 12, 2, true}, {0, 3, 13, 2, false}}})
